@@ -872,6 +872,30 @@ def scenario_isolation(c):
                 bad.setdefault("C14.logging_does_not_raise", "iprint=%d: %r" % (ipr, P5["exc"]))
             elif _same_state(P1["snap"], P5["snap"], fields=flds, tol=0.0):
                 bad.setdefault("C14.logging_has_no_numerical_influence", "iprint=%d changes the result" % ipr)
+        # logging while update_fun_def rewrites the stored gradients (negated objective from update call 2 on: every
+        # stored pair loses its curvature and the history filter, which logs what it drops, has work to do)
+        if c.get("rewrite"):
+            from collections import deque
+
+            def mk():
+                st = dict(calls=0, sw=False)
+                pp = dict(p, f=lambda x: (-1.0 if st["sw"] else 1.0) * float(p["f"](x)), g=lambda x: (-1.0 if st["sw"] else 1.0) * np.asarray(p["g"](x), float))
+
+                def upd(x, f0, f0_old, grad, X, G):
+                    st["calls"] += 1
+                    if st["calls"] != 3:
+                        return f0, f0_old, grad, G
+                    st["sw"] = True
+                    return -f0, f0_old, -np.asarray(grad, float), deque(-np.asarray(g, float) for g in G)
+                return pp, upd
+            pa, ua = mk()
+            N1 = run_once(pa, dict(base, maxiter=4), callback_kind="false", extra=dict(update_fun_def=ua))
+            pb, ub_ = mk()
+            N2 = run_once(pb, dict(base, maxiter=4), callback_kind="false", extra=dict(update_fun_def=ub_, iprint=0, logger=_RecLogger()))
+            if (N1["exc"] is None) != (N2["exc"] is None):
+                bad.setdefault("C14.logging_has_no_numerical_influence", "with an objective redefinition the logger decides whether the run raises: without logger %r, with logger %r" % (N1["exc"], N2["exc"]))
+            elif N1["exc"] is None and _same_state(N1["snap"], N2["snap"], fields=flds, tol=0.0):
+                bad.setdefault("C14.logging_has_no_numerical_influence", "with an objective redefinition (negated at update call 2) the logger changes the result: %s" % ("; ".join(_same_state(N1["snap"], N2["snap"], fields=flds, tol=0.0))[:300]))
         out.append(dict(problem=name, violated=bad))
     return dict(runs=out)
 
